@@ -466,6 +466,16 @@ class Routing(BaseModel):
             v = RouteAlgo[v]
         return v
 
+    @model_validator(mode="after")
+    def check_id_addr_offset(self):
+        """Without an address table, ID routing reads the destination from the address bits
+        above `addr_offset_bits`, which cannot be derived from the network."""
+        if (self.route_algo == RouteAlgo.ID and not self.use_id_table
+                and self.addr_offset_bits is None):
+            raise ValueError(
+                "`addr_offset_bits` is required for ID routing without `use_id_table`")
+        return self
+
     def render_param_decl(self) -> str:
         """Render the SystemVerilog parameter declaration."""
         string = ""
